@@ -294,6 +294,32 @@ def m_vec_is_empty(it, st, fr, t, args, ga):
     return I.BoolV(cmp_term('Eq', c.len, 0))
 
 
+def m_vec_remove(it, st, fr, t, args, ga):
+    """Vec::remove(i): the element at i, the rest shifted down (a sub-sequence of the old list); panics when i >= len"""
+    c = _cont(it, st, args[0])
+    idx = _num(args[1])
+    ety = c.elem_ty or {'k': 'uint', 'n': 'u8'}
+
+    def ok(it2, s2, f2):
+        c2 = _cont(it2, s2, it2.operand(s2, f2, t['args'][0]))
+        x = elem_term(c2.term, idx.term, c2.len, s2.ctx, ety)
+        c2.term = ('remove', c2.term, idx.term)
+        c2.len = c2.len - 1
+        return I.Num(x, ety.get('n', 'u8'))
+
+    def oob(it2, s2, f2):
+        return ('panic', 'Vec::remove index out of bounds')
+    return ('fork', [(cmp_term('Lt', idx.term, c.len), ok), (cmp_term('Ge', idx.term, c.len), oob)])
+
+
+def m_vec_is_full(it, st, fr, t, args, ga):
+    c = _cont(it, st, args[0])
+    cap = c.cap if c.cap is not None else _cap_from(it, ga, fr)
+    if cap is None:
+        return I.BoolV(B(('sym', st.fresh_name('is_full'))))
+    return I.BoolV(cmp_term('Ge', c.len, cap))
+
+
 def m_vec_clear(it, st, fr, t, args, ga):
     c = _cont(it, st, args[0])
     c.term = ('clear',)
@@ -1118,6 +1144,8 @@ def registry():
         'heapless::vec::Vec::<T, N>::len': m_vec_len,
         'heapless::vec::Vec::<T, N>::is_empty': m_vec_is_empty,
         'heapless::vec::Vec::<T, N>::clear': m_vec_clear,
+        'heapless::vec::Vec::<T, N>::remove': m_vec_remove,
+        'heapless::vec::Vec::<T, N>::is_full': m_vec_is_full,
         'heapless::vec::Vec::<T, N>::retain': m_vec_retain,
         '<heapless::vec::Vec<T, N> as core::ops::Deref>::deref': m_vec_deref,
         '<heapless::vec::Vec<T, N> as core::iter::IntoIterator>::into_iter': m_vec_into_iter,
